@@ -35,18 +35,36 @@ Proof.
   split; [vm_compute; reflexivity|]. split; vm_compute; reflexivity.
 Qed.
 
-(* ---- "1e100001" silently denotes 1 ; "1e2147483648" leaves a NaN ---- *)
+(* ---- exponents apd cannot represent are rejected (fix of finding F9: the error of
+        UnmarshalText is returned; before, "1e100001" silently denoted 1 and "1e2147483648"
+        left a NaN decimal) ---- *)
 Definition f9_witness : list N := [49; 101; 49; 48; 48; 48; 48; 49].
+Definition f9_witness_neg : list N := [49; 101; 45; 52; 48; 48; 48; 48; 48].
 Definition f9_witness_nan : list N := [49; 101; 50; 49; 52; 55; 52; 56; 51; 54; 52; 56].
 
-Lemma literal_exponent_range_refuted :
-  lit_parse f9_witness = LNum (mkNum KFloat (mkDec false 1 0)) /\
-  (exists i, parse_num f9_witness = Some i /\
-             lit_exact i = Some (mkNum KFloat (mkDec false 1 100001))) /\
-  lit_parse f9_witness_nan = LNaN KFloat.
+Lemma literal_exponent_range_rejected :
+  lit_parse f9_witness = LErr /\ lit_parse f9_witness_neg = LErr /\ lit_parse f9_witness_nan = LErr /\
+  (* the largest accepted exponent: 1e100000 *)
+  lit_parse [49; 101; 49; 48; 48; 48; 48; 48] = LNum (mkNum KFloat (mkDec false 1 100000)) /\
+  (* and the specification layer sees no deviation *)
+  classify f9_witness = LcSame /\ classify f9_witness_nan = LcSame.
+Proof. repeat split; vm_compute; reflexivity. Qed.
+
+(* no literal leaves a NaN decimal behind any more *)
+Lemma decimal_of_never_nan : forall i, decimal_of i <> Some DNaN.
 Proof.
-  split; [vm_compute; reflexivity|]. split; [|vm_compute; reflexivity].
-  exists (mkInfo f9_witness 10 None true). split; vm_compute; reflexivity.
+  intros i. unfold decimal_of. destruct (negb (i_base i =? 10)).
+  - destruct (i_buf i) as [|c r]; [discriminate|]. destruct (c =? c_minus); discriminate.
+  - destruct (set_string _) as [v|]; [|discriminate].
+    destruct (i_mul i); [|discriminate].
+    destruct (to_integral_flag _) as [r [|]]; discriminate.
+Qed.
+
+Lemma lit_parse_never_nan : forall src k, lit_parse src <> LNaN k.
+Proof.
+  intros src k. unfold lit_parse. destruct (parse_num src) as [i|]; [|discriminate].
+  pose proof (decimal_of_never_nan i) as H.
+  destruct (decimal_of i) as [[d|]|]; try discriminate. contradiction.
 Qed.
 
 (* ---- the multiplier branch of NumInfo.decimal ---- *)
